@@ -7,6 +7,8 @@
 //! duplication, views and the coordinator's reply counting come from the behaviour (the
 //! coordinator's fan-out logic is mirrored, not observed - one ClusterActor per process).
 use std::collections::{BTreeMap, HashMap, HashSet};
+use std::sync::Arc;
+use std::sync::atomic::{AtomicU64, Ordering};
 use std::time::Duration;
 
 use hcommon::{Report, read_ndjson};
@@ -18,13 +20,82 @@ use sierradb_cluster::ClusterActor;
 use sierradb_cluster::confirmation::actor::ConfirmationActor;
 use sierradb_cluster::write::confirm::ConfirmTransaction;
 use sierradb_cluster::write::replicate::{PartitionReplicatorActor, PartitionReplicatorActorArgs, ReplicateWrite};
-use sierradb_cluster::write::transaction::set_confirmations_with_retry;
+use sierradb_cluster::write::transaction::{self, WriteConfig, set_confirmations_with_retry};
+use sierradb_cluster::write::error::WriteError;
+use sierradb_cluster::circuit_breaker::WriteCircuitBreaker;
+use sierradb_cluster::ReplicaRefs;
+use sierradb::writer_thread_pool::AppendResult;
+use kameo::prelude::{Actor, Context, DelegatedReply, Message};
 use smallvec::SmallVec;
 use uuid::Uuid;
 
 use crate::node::*;
-use crate::replicator::{make_tx, partition_log, tx_uuid};
+use crate::replicator::{make_tx_in, partition_log, tx_uuid};
 use crate::watermark::open_db;
+
+/// the replicator (actor sequence id + 1) whose catch-up may run now; 0 = none
+static CATCHUP_ALLOWED: AtomicU64 = AtomicU64::new(0);
+/// catch-up attempts completed (hook point rep.catchup.done)
+static CATCHUP_DONE: AtomicU64 = AtomicU64::new(0);
+
+fn install_hooks() {
+    sierradb::verif::install_query(Arc::new(|name, default| {
+        if name == "rep.catchup.allow" {
+            if CATCHUP_ALLOWED.load(Ordering::SeqCst) == default {
+                1
+            } else {
+                // the replicator's timer fires again at once: do not let it spin hot
+                std::thread::sleep(Duration::from_millis(4));
+                0
+            }
+        } else {
+            default
+        }
+    }));
+    sierradb::verif::install(Arc::new(|name, _fields| match name {
+        // one attempt per "catchup" step of the behaviour
+        "rep.catchup.start" => CATCHUP_ALLOWED.store(0, Ordering::SeqCst),
+        "rep.catchup.done" => {
+            CATCHUP_DONE.fetch_add(1, Ordering::SeqCst);
+        }
+        _ => {}
+    }));
+}
+
+/// The coordinator of a write, for the behaviours whose last write runs the REAL coordinator code
+/// (write/transaction.rs) over the coordinating node's database, with the process's ClusterActor -
+/// given the replica's database - as the one reachable replica.
+#[derive(Actor)]
+struct Coordinator {
+    database: Database,
+    confirmation_ref: ActorRef<ConfirmationActor>,
+    identity: ActorRef<ClusterActor>,
+    remote_identity: RemoteActorRef<ClusterActor>,
+    alive_since: u64,
+    replicas: ReplicaRefs,
+}
+struct Execute(sierradb::database::Transaction);
+impl Message<Execute> for Coordinator {
+    type Reply = DelegatedReply<Result<AppendResult, WriteError>>;
+    async fn handle(&mut self, Execute(tx): Execute, ctx: &mut Context<Self, Self::Reply>) -> Self::Reply {
+        let (delegated_reply, reply_sender) = ctx.reply_sender();
+        transaction::spawn(
+            WriteConfig {
+                database: self.database.clone(),
+                local_cluster_ref: self.identity.clone(),
+                local_remote_cluster_ref: self.remote_identity.clone(),
+                local_alive_since: self.alive_since,
+                confirmation_ref: self.confirmation_ref.clone(),
+                replicas: self.replicas.clone(),
+                replication_factor: 3,
+                circuit_breaker: Arc::new(WriteCircuitBreaker::with_defaults()),
+            },
+            tx,
+            reply_sender,
+        );
+        delegated_reply
+    }
+}
 
 struct VNode {
     dir: std::path::PathBuf,
@@ -46,7 +117,8 @@ async fn start_node(v: &mut VNode, sink_db: &Database) -> Result<(), String> {
             confirmation_ref: sink.clone(),
             buffer_size: 1_000,
             buffer_timeout: Duration::from_secs(60),
-            catchup_timeout: Duration::from_secs(60),
+            // fires soon after a write is buffered behind a gap; the hook holds it back until the behaviour's catch-up step
+            catchup_timeout: Duration::from_millis(60),
         },
         mailbox::bounded(100),
     );
@@ -86,12 +158,71 @@ async fn run_one(beh: &Value, root: &std::path::Path, cluster: &ActorRef<Cluster
     let mut pending: Vec<(u64, u64, tokio::task::JoinHandle<String>)> = vec![]; // (to, tx, ask)
     let mut done = 0u64;
     let mut current_reset: Option<u64> = None;
+    let stream_of = |t: u64| -> String { format!("s{}", beh["streams"][t.to_string()].as_str().unwrap_or("x")) };
+    let real_tx = beh.get("real_coordinator").and_then(|t| t.as_u64());
+    let mut real_done = false;
     for (i, st) in beh["steps"].as_array().unwrap().iter().enumerate() {
+        if real_done && st.get("tx").and_then(|t| t.as_u64()) == real_tx {
+            continue; // message steps of the write the real coordinator has already carried out
+        }
         match st["op"].as_str().unwrap() {
             "write" => {
                 let (t, c, k, n) = (st["tx"].as_u64().unwrap(), st["c"].as_u64().unwrap(), st["k"].as_u64().unwrap(), st["n"].as_u64().unwrap() as usize);
                 sizes.insert(t, n);
-                let tx = make_tx(key, 0, t, k, n, 0, &mut ids).expected_partition_sequence(ExpectedVersion::Any);
+                let tx = make_tx_in(key, 0, t, k, n, 0, &mut ids, &stream_of(t)).expected_partition_sequence(ExpectedVersion::Any);
+                if real_tx == Some(t) {
+                    // the real coordinator: local append, ReplicateWrite to the one reachable replica (the process's
+                    // ClusterActor over that node's database; its replicators start from the database, as after a restart),
+                    // reply counting, set_confirmations, ConfirmTransaction, client reply
+                    let r = beh["steps"].as_array().unwrap().iter().find(|s| s["op"] == "rep" && s["tx"].as_u64() == Some(t)).and_then(|s| s["to"].as_u64())
+                        .ok_or("no replica for the real coordinator's write")?;
+                    let rdb = nodes[&r].db.clone().ok_or("replica is down")?;
+                    reset(cluster, rdb.clone()).await?;
+                    current_reset = Some(r);
+                    let cdb = nodes[&c].db.clone().ok_or("coordinator is down")?;
+                    let conf = ConfirmationActor::new(cdb.clone(), 3, HashSet::from_iter(0..PARTITIONS)).await.map_err(|e| format!("confirmation actor: {e}"))?;
+                    let alive = std::time::SystemTime::now().duration_since(std::time::UNIX_EPOCH).unwrap().as_secs() + 60;
+                    let co = Coordinator::spawn(Coordinator {
+                        database: cdb.clone(),
+                        confirmation_ref: Spawn::spawn(conf),
+                        identity: cluster.clone(),
+                        remote_identity: coord_ref.clone(),
+                        alive_since: alive,
+                        replicas: ReplicaRefs::from_iter([(coord_ref.clone(), alive)]),
+                    });
+                    let want_ack = beh["acked"].as_array().unwrap().iter().any(|x| x.as_u64() == Some(t));
+                    let reply = tokio::time::timeout(Duration::from_secs(40), co.ask(Execute(tx))).await;
+                    let _ = co.stop_gracefully().await;
+                    match reply {
+                        Err(_) => return Err(format!("step {i}: the real coordinator did not answer the client within 40 s (transaction {t}, specification acknowledged = {want_ack})")),
+                        Ok(res) => {
+                            let got = res.as_ref().map(|a| a.first_partition_sequence).map_err(|e| e.to_string());
+                            if res.is_ok() != want_ack {
+                                return Err(format!("step {i}: real coordinator (node {c}, replica node {r}): client reply {got:?}, specification acknowledged = {want_ack}"));
+                            }
+                            if let Ok(seq) = got {
+                                if seq != k {
+                                    return Err(format!("step {i}: real coordinator appended transaction {t} at sequence {seq}, specification {k}"));
+                                }
+                            }
+                        }
+                    }
+                    // the ConfirmTransaction to the replica is sent without waiting: let it land
+                    if want_ack {
+                        let want_cnt: Vec<u64> = beh["cnts"][(r - 1) as usize].as_array().unwrap().iter().map(|x| x.as_u64().unwrap()).collect();
+                        let t0 = std::time::Instant::now();
+                        loop {
+                            let got: Vec<u64> = partition_log(&rdb, 0).await?.iter().map(|(_, c)| *c as u64).collect();
+                            if got == want_cnt || t0.elapsed() > Duration::from_secs(5) {
+                                break;
+                            }
+                            tokio::time::sleep(Duration::from_millis(10)).await;
+                        }
+                    }
+                    real_done = true;
+                    done += 1;
+                    continue;
+                }
                 let db = nodes[&c].db.clone().ok_or("coordinator is down")?;
                 let r = db.append_events(tx).await.map_err(|e| format!("step {i}: coordinator's local append failed: {e}"))?;
                 if r.first_partition_sequence != k {
@@ -106,7 +237,7 @@ async fn run_one(beh: &Value, root: &std::path::Path, cluster: &ActorRef<Cluster
                 if res == "invalid_sender" {
                     // the membership check of the ClusterActor's ReplicateWrite handler (mirrored from the view)
                 } else {
-                    let tx = make_tx(key, 0, t, k, sizes[&t], 0, &mut ids);
+                    let tx = make_tx_in(key, 0, t, k, sizes[&t], 0, &mut ids, &stream_of(t));
                     let r = nodes[&to].replicator.clone().ok_or("replica is down")?;
                     let c = coord_ref.clone();
                     let mut hnd = tokio::spawn(async move {
@@ -209,6 +340,32 @@ async fn run_one(beh: &Value, root: &std::path::Path, cluster: &ActorRef<Cluster
                 let n = st["n"].as_u64().unwrap();
                 start_node(nodes.get_mut(&n).unwrap(), &sink_db).await?;
             }
+            "catchup" => {
+                let (r, c, want_len) = (st["r"].as_u64().unwrap(), st["from"].as_u64().unwrap(), st["len"].as_u64().unwrap() as usize);
+                // the coordinator's side: the process's ClusterActor over the coordinator's database (its watermark is
+                // derived from the on-disk counts by the real ConfirmationActor)
+                let cdb = nodes[&c].db.clone().ok_or("catch-up source is down")?;
+                // always anew: the actor's watermark is derived from the on-disk counts when it is given the database
+                reset(cluster, cdb).await?;
+                current_reset = Some(c);
+                let rep_ref = nodes[&r].replicator.clone().ok_or("catching-up replica is down")?;
+                let before = CATCHUP_DONE.load(Ordering::SeqCst);
+                CATCHUP_ALLOWED.store(rep_ref.id().sequence_id() + 1, Ordering::SeqCst);
+                let t0 = std::time::Instant::now();
+                while CATCHUP_DONE.load(Ordering::SeqCst) == before {
+                    if t0.elapsed() > Duration::from_secs(20) {
+                        CATCHUP_ALLOWED.store(0, Ordering::SeqCst);
+                        return Err(format!("step {i}: the catch-up of node {r} (from node {c}) did not run within 20 s"));
+                    }
+                    tokio::time::sleep(Duration::from_millis(3)).await;
+                }
+                CATCHUP_ALLOWED.store(0, Ordering::SeqCst);
+                let log = partition_log(nodes[&r].db.as_ref().unwrap(), 0).await?;
+                if log.len() != want_len {
+                    let got: Vec<u64> = log.iter().map(|(t, _)| (t.as_u128() & 0xffff) as u64).collect();
+                    return Err(format!("step {i}: after the catch-up of node {r} from node {c} its log is {got:?} ({} events), specification {want_len} events", log.len()));
+                }
+            }
             "giveup" | "lose" | "view" => {}
             other => return Err(format!("unexpected step {other}")),
         }
@@ -283,6 +440,7 @@ async fn run_one(beh: &Value, root: &std::path::Path, cluster: &ActorRef<Cluster
 
 pub async fn vcluster_cmd(rep: &mut Report, plans: &str) {
     let behs = read_ndjson(plans);
+    install_hooks();
     let root = std::env::current_dir().unwrap().join(format!("vc-{}", std::process::id()));
     let _ = std::fs::remove_dir_all(&root);
     std::fs::create_dir_all(&root).unwrap();
@@ -295,13 +453,17 @@ pub async fn vcluster_cmd(rep: &mut Report, plans: &str) {
     let mut skipped = 0;
     for beh in &behs {
         let ops: Vec<&str> = beh["steps"].as_array().unwrap().iter().map(|s| s["op"].as_str().unwrap()).collect();
-        if ops.contains(&"catchup") {
-            skipped += 1; // catch-up of the real actor runs on its own timer: replayed by C12
-            continue;
-        }
+        let _ = &mut skipped;
         rep.eval(1);
         let kinds: std::collections::BTreeSet<&str> = beh["steps"].as_array().unwrap().iter().filter(|s| s["op"] == "rep").map(|s| s["res"].as_str().unwrap()).collect();
-        rep.class(format!("{kinds:?} crash={} view={} acked={}", ops.contains(&"crash"), ops.contains(&"view"), beh["acked"].as_array().unwrap().len()));
+        let ahead = beh["steps"].as_array().unwrap().iter().any(|s| s["op"] == "catchup" && s["ahead"] == true);
+        rep.class(format!("{kinds:?} crash={} view={} acked={} catchup={}", ops.contains(&"crash"), ops.contains(&"view"), beh["acked"].as_array().unwrap().len(), if ahead { "ahead" } else if ops.contains(&"catchup") { "yes" } else { "no" }));
+        if ops.contains(&"catchup") {
+            rep.add("with_catchup", 1);
+        }
+        if beh.get("real_coordinator").is_some() {
+            rep.add("with_real_coordinator", 1);
+        }
         let r = tokio::spawn({
             let beh = beh.clone();
             let root = root.clone();
